@@ -498,6 +498,17 @@ class AccountingMonitor(Monitor):
 
     def on_exec_after(self, pkg):
         self.in_exec = max(0, self.in_exec - 1)
+        ex = getattr(self.run, "exchange", None)
+        if ex is not None and pkg.package_type.name == "CANCEL" and not ex.ocm and not any(getattr(getattr(e, "EVENT_TYPE", None), "name", "") == "CURRENT_ORDERS" for e in getattr(self.run.fw.handler_queue, "q", ())):
+            # World B: the reply to a cancel has just been applied and no order-stream message is under way any more. An order
+            # the reply handed back as EXECUTABLE although its bet is complete at the exchange (successful cancel of what was
+            # left) will not hear about it again: its trade stays live and the runner stays charged
+            for o in pkg._orders:
+                b = ex.bets.get(str(o.bet_id)) if o.bet_id is not None else None
+                rs = o.responses.cancel_responses
+                if b is not None and b["complete"] and o.status is not None and o.status.name == "EXECUTABLE" and rs and getattr(rs[-1], "status", None) == "SUCCESS":
+                    self.res.probes["c10.live.cancel_reply_checked_against_the_exchange"] += 1
+                    self.violate(self.P, "C10.not-locked", "cancel-reply-left-the-order-executable-although-its-bet-is-complete-and-no-message-is-under-way", order=o._vid, size_cancelled=getattr(rs[-1], "size_cancelled", None), matched_at_exchange=b["matched"], status_log=[x.name for x in o.status_log][-5:])
         for o in pkg._orders:
             resp = o.responses.place_response
             if pkg.package_type.name == "PLACE" and resp is not None and getattr(resp, "status", None) == "FAILURE":
